@@ -234,6 +234,7 @@ def run(ctx):
         if st['unp'] != (True, v, False):
             raise MachineryError('dump: model Unpack(Pack) is not the value for %r' % (t,))
         ok = check_case(ctx, t, v, st['nodes'], st['packed'], st['legacy'], names)
+        ctx.again(check_case, ctx, t, v, st['nodes'], st['packed'], st['legacy'], names)
         ctx.replayed += 1
         seen_types.add(md.type_class(t))
         for m in st['muts']:
@@ -246,6 +247,7 @@ def run(ctx):
     need = {'comb3', 'comb4', 'comb5', 'comb6', 'pair', 'option', 'or', 'list', 'set', 'map', 'timestamp', 'address', 'key_hash', 'key', 'signature', 'chain_id', 'lambda'}
     if classes != want or not demanded or not need <= seen_types or len({pcs.get(k) for k in ('render', 'rendered', 'packed', 'unpacked', 'done')}) != 1 or not pcs.get('done'):
         raise MachineryError('vacuity: classes %s, rejected %d, type classes %s, states per phase %s' % (sorted(classes), demanded, sorted(seen_types), pcs))
+    ctx.second_pass()
     ctx.exhaustive = True
 
 
